@@ -628,5 +628,8 @@ PROPS["C07"]["rules"] = PROPS["C07"]["rules"] + [(lambda ctx: rules_loops.rule_s
 PROPS["C07"]["explanation"] += " (SEARCHFLAG) the field-name searches of VSsetfields/VSfpack/VSsizeof/VSfexist reset their found-flag per requested field."
 PROPS["C19"]["rules"] = PROPS["C19"]["rules"] + [(lambda ctx: rules_loops.rule_search_flag_reset(ctx, dirs=("mfhdf/hdp/",), floor=3))]
 
+PROPS["C13"]["rules"] = PROPS["C13"]["rules"] + [rules_handles.rule_end_removes_outstanding_ids]
+PROPS["C13"]["explanation"] += " (ENDDANGLE) a routine that destroys a per-file tree whose nodes are registered as ids removes the outstanding ids (three known findings: GRend, and Vend's Remove_vfile for vgroups and vdatas)."
+
 NOT_APPLICABLE = {}
 
